@@ -1428,6 +1428,28 @@ fn gen_hostile_status(r: &mut Rng) -> (Vec<u8>, &'static str) {
             2 => format!("{} ", URLS[k]).into_bytes(),
             3 => vec![],
             4 => b"\xff\xfe".to_vec(),
+            // well-formed UTF-8 type URLs that are NOT the standard ones but share their length
+            // and prefix structure, with multi-byte characters at every offset (a reader that
+            // slices the URL at a fixed byte position - prefix length, '/', '.' - must not panic)
+            5 => {
+                let base = URLS[k];
+                let at = r.below(base.len() as u64) as usize;
+                let mut u = String::new();
+                for (i, c) in base.chars().enumerate() {
+                    if i == at { u.push(*r.pick(&['\u{e9}', '\u{2024}', '\u{20ac}', '\u{1f600}'])); } else { u.push(c); }
+                }
+                u.into_bytes()
+            }
+            6 => {
+                let c = *r.pick(&['\u{e9}', '\u{44f}', '\u{20ac}', '\u{1f600}']);
+                std::iter::repeat(c).take(r.range(1, 40) as usize).collect::<String>().into_bytes()
+            }
+            7 => {
+                let cut = r.below(URLS[k].len() as u64 + 1) as usize;
+                let mut u = URLS[k][..cut].to_string();
+                u.push_str(&"\u{20ac}".repeat(r.range(1, 100) as usize));
+                u.into_bytes()
+            }
             _ => URLS[k].as_bytes().to_vec(),
         };
         let value: Vec<u8> = match if k == 0 && r.chance(1, 3) { 7 } else { r.below(10) } {
